@@ -74,7 +74,7 @@ OP_WEIGHTS = {
     "new": 3, "drop": 1, "set": 14, "read": 6, "call": 3, "shift": 6, "clip": 4, "lay": 8, "elem": 5,
     "stat": 3, "stat0": 1, "mov": 3, "fill": 4, "extrap": 2, "nvar": 2, "change": 3, "binop": 9,
     "scalarop": 4, "unary": 3, "hstack": 4, "ishift": 2, "copy": 3, "replace_where": 2, "mixfreq": 2,
-    "describe": 1,
+    "describe": 1, "apply": 2, "new_shared": 2,
 }
 
 MUTATING = {"set", "shift", "clip", "lay", "elem", "stat", "mov", "fill", "extrap", "nvar", "change",
@@ -263,7 +263,7 @@ class SeriesWorld(World):
         kinds = [k for k in w if w[k] > 0]
         for _ in range(30):
             kind = rng.choices(kinds, weights=[w[k] for k in kinds])[0]
-            if kind in ("new", "call", "binop", "scalarop", "unary", "hstack", "ishift", "copy") and len(self.live) >= cfg["pop"]:
+            if kind in ("new", "call", "binop", "scalarop", "unary", "hstack", "ishift", "copy", "apply", "new_shared") and len(self.live) >= cfg["pop"]:
                 kind = "drop" if rng.random() < 0.5 else kind
                 if kind != "drop" and len(self.live) >= cfg["pop"] + 2:
                     kind = "drop"
@@ -323,6 +323,22 @@ class SeriesWorld(World):
         desc = rng.choice(["", "", "alpha", "b, \"q\""])
         return {"op": "new", "actor": actor, "out": [self._new_name()],
                 "args": {"freq": f, "start": start, "nv": nv, "values": values, "ctor": ctor, "desc": desc}}
+
+    def _gen_new_shared(self, actor, val, rng):
+        """Two series built by the public Series.from_start_and_array over ONE caller-owned numpy array."""
+        cfg = self.cfg
+        nv = rng.randint(1, cfg["max_nv"])
+        n = rng.randint(2, max(2, cfg["max_len"]))
+        values = [[val.choice(VALUE_POOL) for _ in range(nv)] for _ in range(n)]
+        return {"op": "new_shared", "actor": actor, "out": [self._new_name(), self._new_name()],
+                "args": {"freq": cfg["freq"], "start": cfg["base"] + rng.randint(-3, 3), "nv": nv, "values": values,
+                         "offset": rng.choice([0, 0, 1])}}
+
+    def _gen_apply(self, actor, val, rng):
+        h = self._pick(rng, actor, self._native)
+        if h is None:
+            return None
+        return {"op": "apply", "out": [self._new_name()], "args": {"h": h, "fn": rng.choice(["real", "real", "negative", "asarray", "square"])}}
 
     def _gen_drop(self, actor, val, rng):
         if len(self.live) <= 2:
@@ -713,7 +729,7 @@ class SeriesWorld(World):
                 raise Violation("alias", opname, pred, "", f"result shares its metadata dict with live series {h}", handles=(h,))
 
     def _exec(self, step, opname, roles, thunk, *, recv=None, out=None, expect: Exp | None = None,
-              must_reject=False, owner=None, desc_same_as=None):
+              must_reject=False, owner=None, desc_same_as=None, may_alias=False):
         """
         Run `thunk` on the real objects and judge the outcome.
           recv:   handle mutated by a method form (expect describes it afterwards)
@@ -763,7 +779,11 @@ class SeriesWorld(World):
             if bad:
                 raise Violation(bad[0], opname, pred, "", bad[1])
             self._isolation(opname, pred)
-            self._check_alias(opname, pred, result, out, roles)
+            if may_alias:
+                if any(np.shares_memory(o.real.data, result.data) for o in self.live.values()):
+                    self.probes["legitimately_shared_buffer_in_population"] += 1
+            else:
+                self._check_alias(opname, pred, result, out, roles)
             self.live[out] = Obj(result, model_from_real(result), owner or step.get("actor", "a0"))
             self.snaps[out] = snapshot(result)
             self.probes["result_joined_population"] += 1
@@ -801,6 +821,39 @@ class SeriesWorld(World):
     def _do_drop(self, step, a):
         self.retire((a["h"],))
         return "ok"
+
+    def _do_new_shared(self, step, a):
+        """
+        Series.from_start_and_array keeps the caller's array.  The property does not forbid that; what it does
+        demand is that a later write through one series changes exactly that series' cells - the isolation
+        monitor watches the sibling from now on.
+        """
+        f, nv = a["freq"], a["nv"]
+        arr = from_nan_list(a["values"], nv)
+        out1, out2 = step["out"]
+        s1 = ir.Series.from_start_and_array(P(f, a["start"]), arr)
+        s2 = ir.Series.from_start_and_array(P(f, a["start"] + a["offset"]), arr)
+        for name, s, st in ((out1, s1, a["start"]), (out2, s2, a["start"] + a["offset"])):
+            m = sm.from_array(f, nv, st, arr)
+            bad = conforms(s, Exp(m.freq, nv, m.cells, tight=True), "from_start_and_array")
+            if bad:
+                raise Violation(bad[0], "new_shared", "", "", bad[1])
+        self._isolation("new_shared", "")
+        for name, s in ((out1, s1), (out2, s2)):
+            self.live[name] = Obj(s, model_from_real(s), step.get("actor", "a0"))
+            self.snaps[name] = snapshot(s)
+        if np.shares_memory(s1.data, s2.data):
+            self.probes["legitimately_shared_buffer_in_population"] += 1
+        return "ok"
+
+    def _do_apply(self, step, a):
+        """Series.apply(func): func may hand back its argument (np.real of a float array does), so the result may share the buffer."""
+        h = a["h"]
+        o = self.live[h]
+        table = {"real": np.real, "negative": np.negative, "asarray": np.asarray, "square": np.square}
+        f = table[a["fn"]]
+        exp = sm.t_rowwise(o.model, f)
+        return self._exec(step, "apply." + a["fn"], [("recv", h)], lambda: o.real.apply(f), out=step["out"][0], expect=exp, may_alias=True)
 
     def _do_describe(self, step, a):
         h = a["h"]
